@@ -470,6 +470,9 @@ def interpret(case_text, probe_path=None, defects=frozenset()):
                         tok = c.next_token()
                     if tok is None:
                         raise ReadError('syntax', 'missing-file-name', c.pos)
+                    if tok.cut and tok.naked_word() in RESERVED_WORDS:
+                        # (S7 emulation: in the FILE-NAME position the remnant of a cut token IS checked)
+                        raise ReadError('syntax', 'reserved-word', tok.start)
                     ins.name = c._string_of(tok)
                     tok = c.next_token()
                     if tok is None:
@@ -504,9 +507,7 @@ def interpret(case_text, probe_path=None, defects=frozenset()):
             if ins.kind == 'def-string':
                 if ins.name in symbols:
                     raise ReadError('validation', 'symbol-defined-twice')
-                if ins.value.whole_ref is not None and ins.value.whole_ref in symbols \
-                        and symbols[ins.value.whole_ref][0] != 'string':
-                    raise ReadError('validation', 'illegal-type')
+                # (a whole-token naked reference to a list is converted to a string here - "in most places")
                 symbols[ins.name] = ('string', resolve_string(ins.value, symbols))
             elif ins.kind == 'def-list':
                 if ins.name in symbols:
